@@ -19,7 +19,8 @@ RULE = (
     "kinds FLAT, VMFS, SPARSE (hosted), VMFSSPARSE (COWD) and SESPARSE in any mix and order, extent sizes from one "
     "sector up (not multiples of the stream buffer), file names with spaces, '#', quotes inside, parentheses, unicode "
     "and emoji, CRLF/LF, comments; opened as VMDK(Path), VMDK(str), VMDK(open(path)) and as an explicit list of extent "
-    "handles; Parallels directories with 2..6 storages (Compressed and Plain) listed in shuffled order. Oracle: the "
+    "handles; multi-extent delta children over a parent (unallocated grains of later extents come from the parent at the disk "
+    "sector); Parallels directories with 2..6 storages (Compressed and Plain) listed in shuffled order. Oracle: the "
     "concatenation of the extents' content models; size == sum of sectors x 512; every data-bearing extent named in "
     "the descriptor is present in the assembled disk; requests straddle every extent boundary and the disk tail, "
     "through bytes and read_sectors. Non-trivial: >= 2 extents; distinct = (kind sequence, sizes, access path)."
@@ -29,7 +30,7 @@ ASSUMPTIONS = [
     "writers/content models as in C02 and C06",
     "held means: held on the executions listed, not verified for all descriptors",
 ]
-MINIMA = {"quick": {"reads_compared": 3000, "boundary_straddling_requests": 500, "sesparse_extents": 10, "hdd_cases": 20, "special_name_cases": 30},
+MINIMA = {"quick": {"reads_compared": 3000, "boundary_straddling_requests": 500, "sesparse_extents": 10, "hdd_cases": 20, "special_name_cases": 30, "multi_extent_delta_cases": 8},
           "thorough": {"reads_compared": 30000}}
 MECH = "multi-extent"
 NAMES = ["disk", "my disk", "Windows 10 x64 #2", "d (copy)", "dísk-ü", "диск", "磁盘", "disk😀", "a'b", 'q"uote', "x #1 y", "sp  ace", "tab-x", "100% real", "semi;colon", "eq=sign"]
@@ -42,6 +43,8 @@ def plan(tier: str, seed: int) -> list[dict]:
         cases.append({"k": "vmdk", "i": i})
     for i in range(30 if tier == "quick" else 600):
         cases.append({"k": "hdd", "i": i})
+    for i in range(16 if tier == "quick" else 300):
+        cases.append({"k": "vmdk-delta-multi", "i": i})
     return cases
 
 
@@ -73,6 +76,26 @@ def run(case: dict, ctx) -> dict:
     rng = rng_for(ctx.seed, ID, case["k"], case["i"])
     quick = ctx.tier == "quick"
     d = Path(ctx.tmpdir())
+    if case["k"] == "vmdk-delta-multi":
+        # a child made of several sparse extents over a parent: unallocated grains of a later extent must be
+        # fetched from the parent at the *disk* sector, not the extent-relative one
+        from vf import chains
+
+        o = call(chains.vmdk_delta, rng, ctx, depth=rng.choice([2, 3]), parent_config="samedir", child_kind="multi")
+        if not o.ok:
+            res["viol"].append({"what": f"open failed on a well-formed multi-extent delta: {o.brief()}", "mech": MECH, "detail": {"tb": o.tb}})
+            return res
+        op = o.value
+        if op.stream.size != op.model.size:
+            res["viol"].append({"what": "size is not the sum of the extents", "mech": MECH, "detail": {"got": op.stream.size, "exp": op.model.size}})
+        reqs, _ = gen_requests(rng, op.model.size, [8192, SECTOR * 8], n_random=40)
+        reqs.append((0, op.model.size))
+        compare_reads(op.stream, op.model, reqs, res, MECH)
+        cnt["multi_extent_delta_cases"] = 1
+        res["nontrivial"] = True
+        res["sig"] = ("delta-multi", case["i"], op.model.size)
+        res["sample"] = {"multi_extent_delta": op.info, "size": op.model.size}
+        return res
     if case["k"] == "vmdk":
         from dissect.hypervisor.disk.vmdk import VMDK
 
